@@ -96,6 +96,18 @@ func (pac *PACType) ProcessPACInfoBuffers(key types.EncryptionKey, l *log.Logger
 		if buf.Offset > uint64(len(pac.Data)) || uint64(buf.CBBufferSize) > uint64(len(pac.Data))-buf.Offset {
 			return errors.New("PAC info buffer offset and size are not within the PAC data")
 		}
+	}
+	// The server signature covers all the other buffers. The two signature buffers are processed first and the server
+	// signature is verified before anything else is decoded, so that only authenticated data reaches the decoders.
+	for _, buf := range pac.Buffers {
+		if err := pac.processSignatureBuffer(buf); err != nil {
+			return err
+		}
+	}
+	if ok, err := pac.verifyServerChecksum(key); !ok {
+		return err
+	}
+	for _, buf := range pac.Buffers {
 		p := make([]byte, buf.CBBufferSize, buf.CBBufferSize)
 		copy(p, pac.Data[int(buf.Offset):int(buf.Offset)+int(buf.CBBufferSize)])
 		switch buf.ULType {
@@ -125,30 +137,9 @@ func (pac *PACType) ProcessPACInfoBuffers(key types.EncryptionKey, l *log.Logger
 			//	return fmt.Errorf("error processing CredentialsInfo: %v", err)
 			//}
 			//pac.CredentialsInfo = &k
-		case infoTypePACServerSignatureData:
-			if pac.ServerChecksum != nil {
-				//Must ignore subsequent buffers of this type
-				continue
-			}
-			var k SignatureData
-			zb, err := k.Unmarshal(p)
-			copy(pac.ZeroSigData[int(buf.Offset):int(buf.Offset)+int(buf.CBBufferSize)], zb)
-			if err != nil {
-				return fmt.Errorf("error processing ServerChecksum: %v", err)
-			}
-			pac.ServerChecksum = &k
-		case infoTypePACKDCSignatureData:
-			if pac.KDCChecksum != nil {
-				//Must ignore subsequent buffers of this type
-				continue
-			}
-			var k SignatureData
-			zb, err := k.Unmarshal(p)
-			copy(pac.ZeroSigData[int(buf.Offset):int(buf.Offset)+int(buf.CBBufferSize)], zb)
-			if err != nil {
-				return fmt.Errorf("error processing KDCChecksum: %v", err)
-			}
-			pac.KDCChecksum = &k
+		case infoTypePACServerSignatureData, infoTypePACKDCSignatureData:
+			// Processed above.
+			continue
 		case infoTypePACClientInfo:
 			if pac.ClientInfo != nil {
 				//Must ignore subsequent buffers of this type
@@ -230,6 +221,36 @@ func (pac *PACType) ProcessPACInfoBuffers(key types.EncryptionKey, l *log.Logger
 	return nil
 }
 
+// processSignatureBuffer unmarshals a server or KDC signature buffer and zeroes its signature in ZeroSigData.
+// Buffers of other types are left alone.
+func (pac *PACType) processSignatureBuffer(buf InfoBuffer) error {
+	var dst **SignatureData
+	name := "ServerChecksum"
+	switch buf.ULType {
+	case infoTypePACServerSignatureData:
+		dst = &pac.ServerChecksum
+	case infoTypePACKDCSignatureData:
+		dst = &pac.KDCChecksum
+		name = "KDCChecksum"
+	default:
+		return nil
+	}
+	if *dst != nil {
+		//Must ignore subsequent buffers of this type
+		return nil
+	}
+	p := make([]byte, buf.CBBufferSize, buf.CBBufferSize)
+	copy(p, pac.Data[int(buf.Offset):int(buf.Offset)+int(buf.CBBufferSize)])
+	var k SignatureData
+	zb, err := k.Unmarshal(p)
+	copy(pac.ZeroSigData[int(buf.Offset):int(buf.Offset)+int(buf.CBBufferSize)], zb)
+	if err != nil {
+		return fmt.Errorf("error processing %s: %v", name, err)
+	}
+	*dst = &k
+	return nil
+}
+
 func (pac *PACType) verify(key types.EncryptionKey) (bool, error) {
 	if pac.KerbValidationInfo == nil {
 		return false, errors.New("PAC Info Buffers does not contain a KerbValidationInfo")
@@ -242,6 +263,17 @@ func (pac *PACType) verify(key types.EncryptionKey) (bool, error) {
 	}
 	if pac.ClientInfo == nil {
 		return false, errors.New("PAC Info Buffers does not contain a ClientInfo")
+	}
+	return pac.verifyServerChecksum(key)
+}
+
+// verifyServerChecksum checks the server signature over the PAC data with both signature values zeroed.
+func (pac *PACType) verifyServerChecksum(key types.EncryptionKey) (bool, error) {
+	if pac.ServerChecksum == nil {
+		return false, errors.New("PAC Info Buffers does not contain a ServerChecksum")
+	}
+	if pac.KDCChecksum == nil {
+		return false, errors.New("PAC Info Buffers does not contain a KDCChecksum")
 	}
 	etype, err := crypto.GetChksumEtype(int32(pac.ServerChecksum.SignatureType))
 	if err != nil {
